@@ -60,7 +60,7 @@ def gen_case(rng, tier, k):
     bnet = common.g_mixed(rng, nmax=nmax, p_core=0.35)
     st = rng.choice(STRATS)
     if (st.startswith("scc") or st.startswith("block")) and rng.random() < 0.5:
-        bnet = common.g_modulated(rng)
+        bnet = common.g_modulated(rng, focus=rng.random() < 0.4)
     prefix = []
     if st in ("bfs", "dfs", "min", "aseeds") and rng.random() < 0.5:
         prefix = gen_ops(rng, rng.randint(1, 4), allow_skip=False, allow_unmodelled=False)
